@@ -13,15 +13,17 @@ k/(k+1) = `Infretis.Lattice.hit (k-1)` (theorem `crossing_closed_form`), where
 value for the Kish effective number of paths) — the floor makes an under-estimated block σ
 unable to raise an alarm.
 
-Thorough tier only: the same comparison for *pooled* relative deviations (inverse-variance weights
+Both tiers: the same comparison for *pooled* relative deviations (inverse-variance weights
 over all configurations) of a-priori groups of columns — A: shooting column of [0+]; B: shooting
 column of the last ensemble; C: other shooting columns; D: wire-fencing columns; and the signed
 contrast L = B − A.  Each is tested at 6 σ.
 
 Signatures depend on the cause class, never on the seed:
   C01:lattice:shooting-length-rule-bias   a shooting ensemble's estimate (or pooled group A / B / L)
-        off by at most 8 % relative, in the direction the C09 length rule produces (accept iff
-        L_new ≤ maxlen-1 ⇒ longer paths under-weighted): LOW at the first interface (crossing
+        off by at most 8 % relative, in the direction the C09 length rule of the snapshot produced
+        (add_to_path before f955162: accept iff L_new ≤ maxlen-1 ⇒ longer paths under-weighted;
+        measured on that code at 2·10⁵ steps × 8 runs: A −1.8 % (−6.8 σ), B +1.2 % (+6.4 σ),
+        L +1.4 % (+9.1 σ); with the rule repaired: all groups within 1.3 σ): LOW at the first interface (crossing
         paths are the longer ones), HIGH at the last (crossing paths stop at the last interface,
         the returning ones are longer), either sign in between
   C01:lattice:outside-6sigma:<sh|wf>:<low|high>     anything else outside the band
@@ -392,10 +394,11 @@ def run(ctx):
     ctx.extra["mc_steps_total"] = tot_steps
     pl = pooled(results)
     ctx.extra["pooled_relative_deviation"] = pl
-    # thorough tier: pooled a-priori groups resolve what single columns may not
-    if not ctx.quick:
+    # pooled a-priori groups resolve what single columns may not
+    for g in pl:
+        ctx.count(1, branch="pooled-group")
+    if True:
         for (sig, what, g) in judge_pooled(pl):
-            ctx.count(1, branch="pooled-group")
             ctx.fail(sig, what, {"pooled_group": g, "pooled": pl[g], "configs": cfgs,
                                  "estimates": [[s_ and s_["p"] for s_ in r.get("cols", [])] for r in results],
                                  "sigmas": [[s_ and s_["sigma"] for s_ in r.get("cols", [])] for r in results]})
